@@ -187,8 +187,8 @@ def conds_c20(tier):
     # -- elapsed string digits, and the validation conditions of the two CrossHair-side models
     cs.append(xhrun.Cond(H, "c20_elapsed", {"XH_MAXE": 35999999 if quick else 3599999999}, timeout=600, label="c20_elapsed"))
     # -- the last rendering reflects the final counts: real update-thread code under a symbolic two-thread schedule
-    for nn in ((2, 3) if quick else (1, 2, 3, 4, 5)):
-        cs.append(xhrun.Cond("harness_render", "c20_final_render", {"XH_NNOTE": nn}, timeout=900, label=f"c20_final_render_n{nn}"))
+    for nn in ((1, 2) if quick else (1, 2, 3, 4)):
+        cs.append(xhrun.Cond("harness_render", "c20_final_render", {"XH_NNOTE": nn}, timeout=900 if quick else 2400, label=f"c20_final_render_n{nn}"))
     cs.append(xhrun.Cond(H, "c20_contains_model", {}, timeout=120, label="c20_model_contains"))
     cs.append(xhrun.Cond(H, "c20_format_model", {}, timeout=300, label="c20_model_int_format"))
     return cs, {}
@@ -264,7 +264,7 @@ DESCR = {
             "CrossHair's format() patch is extended: symbolic ints with spec '' / '02' are formatted to symbolic digit strings instead of being realised (validated by condition c20_model_int_format); symbolic floats (HTML bar widths, never inspected) render as '?'",
             "contains(): native pre-filter for substring tests on long CrossHair strings (validated by condition c20_model_contains)",
             "get_elapsed_string: ints 0 <= e <= XH_MAXE symbolically; float inputs only through concrete samples (int() truncation is CPython's)",
-            "last render is final (xh/harness_render.py): the real _run_update_thread turned into a generator by an AST transformation (scheduling point before every statement outside `with self._lock`, Event.wait -> 'is the event set now'); granularity CHECKED on the source (notification bodies are one locked block, _do_render only under the lock, unprotected statements may store at most one shared attribute and not read any); schedule (12 symbolic choices) and clock readings symbolic; <= XH_NNOTE notifications then __exit__; Lock/Event/Thread/time stubs; replay = the same schedule through the same transformed real code in one OS thread (not on real threads)",
+            "last render is final (xh/harness_render.py): the real _run_update_thread turned into a generator by an AST transformation (scheduling point before every statement outside `with self._lock`, Event.wait -> 'is the event set now'); granularity CHECKED on the source (notification bodies are one locked block, _do_render only under the lock, unprotected statements may store at most one shared attribute and not read any); schedule (14 symbolic choices) and clock readings symbolic; <= XH_NNOTE notifications then __exit__; Lock/Event/Thread/time stubs; replay = the same schedule through the same transformed real code in one OS thread (not on real threads)",
             "time attribution (lemmas/elapsed.py): z3 linear real arithmetic over terms computed by calling the real State methods with a z3-valued clock; every C15-legal history of <= K events over S scopes x T calls (quick K=5,S=2,T=2) with symbolic non-negative gaps, followed by a render; floats are treated as reals (float rounding is outside the claim); a sat model is replayed on the unmodified module with exact Fraction clock readings",
         ],
         "rule": ("one obligation per (number of scopes, tuple lengths, kinds of the first scope, pattern offset, exceptions) resp. "
